@@ -1171,6 +1171,20 @@ static IDLE: StdMutex<Vec<Arc<PoolThread>>> = StdMutex::new(Vec::new());
 
 /// Run `job` on a pooled OS thread; returns that thread's handle.
 pub fn pool_run(job: Job) -> std::thread::Thread {
+  // the code under test uses thread-local state: a pooled OS thread would carry it from one
+  // execution into the next (and from one controlled thread to another) - every controlled thread
+  // then gets a fresh OS thread (slower, deterministic)
+  static NO_POOL: OnceLock<bool> = OnceLock::new();
+  if *NO_POOL.get_or_init(|| std::env::var("RXVERIF_NO_POOL").map_or(false, |v| v == "1")) {
+    let h = std::thread::Builder::new()
+      .stack_size(1024 * 1024)
+      .name("rxverif-fresh".into())
+      .spawn(move || {
+        let _ = catch_unwind(AssertUnwindSafe(job));
+      })
+      .unwrap_or_else(|e| std::panic::panic_any(MachineryError(format!("OS refused to spawn a thread: {}", e))));
+    return h.thread().clone();
+  }
   let idle = IDLE.lock().unwrap_or_else(|e| e.into_inner()).pop();
   if let Some(pt) = idle {
     *pt.job.lock().unwrap_or_else(|e| e.into_inner()) = Some(job);
